@@ -37,6 +37,9 @@ pub struct MeshCase {
     /// this node is down (neither sends nor receives) for the first 130 s - longer than a handshake's retry budget
     #[serde(default)]
     pub late: Option<usize>,
+    /// all nodes configured with `algorithms: [plain]` (unencrypted mesh)
+    #[serde(default)]
+    pub plain: bool,
 }
 
 fn no_self_peering(net: &Net<Packet>) -> Result<(), Fail> {
@@ -61,6 +64,9 @@ pub fn run_mesh(c: &MeshCase) -> CaseResult {
     for i in 0..c.n {
         let mut cfg = base_config(Mode::Router, Type::Tun, 0, &[0]);
         cfg.claims = vec![format!("10.{}.0.0/16", i)];
+        if c.plain {
+            cfg.crypto.algorithms = vec!["plain".to_string()];
+        }
         net.add_node(&cfg, c.nat[i]);
     }
     let addrs = net.addrs.clone();
@@ -143,6 +149,7 @@ pub fn run_mesh(c: &MeshCase) -> CaseResult {
             Err(Fail::new("no_full_mesh", format!("after {} s the pairs {:?} are not connected (edges {:?}, nat {:?})", horizon, missing, c.edges, c.nat))
                 .with("any_nat", c.nat.iter().any(|x| *x))
                 .with("late_joiner", c.late.is_some())
+                .with("plain", c.plain)
                 .with("n", c.n as u64))
         }
     }
@@ -154,7 +161,7 @@ pub fn run_mesh(c: &MeshCase) -> CaseResult {
 pub struct SelfCase {
     /// source seen when dialling [real, alias1, alias2]; values 0 = real, 1 = alias1, 2 = alias2
     pub map: [u8; 3],
-    /// which alias is dialled (1 or 2)
+    /// which alias is dialled (1 or 2; 3 = both at the same time)
     pub dial: u8,
     /// embed the node in a 3-mesh whose other members reach it through alias 1
     pub in_mesh: bool,
@@ -184,8 +191,18 @@ pub fn run_self(c: &SelfCase) -> CaseResult {
             net.deliver_all(512);
         }
     }
-    let target = if c.dial == 1 { a1 } else { a2 };
-    net.configure_peer(0, target);
+    if c.dial == 3 {
+        // both aliases are dialled in the same instant: two initiator objects of the same node are pending
+        net.with_node(0, |n| {
+            n.connect(a1).expect("connect");
+            n.connect(a2).expect("connect");
+            n.add_reconnect_peer(format!("{}", a1));
+            n.add_reconnect_peer(format!("{}", a2));
+        });
+    } else {
+        let target = if c.dial == 1 { a1 } else { a2 };
+        net.configure_peer(0, target);
+    }
     let mut delivered_to_self = net.queue.iter().any(|w| w.from == real && net.node_index(&w.to) == Some(0));
     for _ in 0..200 {
         if !net.deliver_all(512) {
@@ -292,10 +309,13 @@ fn mesh_cases(tier: Tier) -> Vec<MeshCase> {
                         if n >= 5 && reverse_salts && o % 2 == 1 {
                             continue;
                         }
-                        v.push(MeshCase { n, edges: edges.clone(), nat: nat.clone(), reverse_salts, late: None });
+                        v.push(MeshCase { n, edges: edges.clone(), nat: nat.clone(), reverse_salts, late: None, plain: false });
+                        if n >= 3 && !reverse_salts && !nat.iter().any(|x| *x) {
+                            v.push(MeshCase { n, edges: edges.clone(), nat: nat.clone(), reverse_salts, late: None, plain: true });
+                        }
                         if n == 3 && !reverse_salts {
                             for l in 0..3 {
-                                v.push(MeshCase { n, edges: edges.clone(), nat: nat.clone(), reverse_salts, late: Some(l) });
+                                v.push(MeshCase { n, edges: edges.clone(), nat: nat.clone(), reverse_salts, late: Some(l), plain: false });
                             }
                         }
                     }
@@ -311,7 +331,7 @@ pub fn run(ctx: &Ctx) {
     sweep_list(ctx, "bootstrap_graphs", &meshes, SweepOpts { chunk: 1, trivial_classes: vec![0], ..Default::default() }, run_mesh);
     let mut selfs = vec![];
     for m in 0..27u8 {
-        for dial in [1u8, 2] {
+        for dial in [1u8, 2, 3] {
             for in_mesh in [false, true] {
                 selfs.push(SelfCase { map: [m % 3, (m / 3) % 3, m / 9], dial, in_mesh });
             }
